@@ -620,9 +620,15 @@ func (p *Process) StartWith(ctx context.Context, element schema.FlowNodeInterfac
 			monitor := p.ceaseFlowMonitor(p.subTracer)
 			go monitor(ctx, sender)
 		})
+		// The instantiation is announced before the start event is triggered:
+		// once tokens flow, the instance's traces pass through subscribers that
+		// may in turn be waiting for the caller (a process set's loop starts
+		// the processes its message flows instantiate and is the only reader
+		// of what their watchers report) - a send at that point can block for
+		// ever.
+		p.tracer.Send(InstantiationTrace{InstanceId: p.id})
 		eventNode.Trigger(ctx)
 		verifhook.Point("process.startwith")
-		p.tracer.Send(InstantiationTrace{InstanceId: p.id})
 
 	case *throwEvent:
 		eventNode.Trigger(ctx)
